@@ -26,12 +26,14 @@ THEOREMS = [f'Gnpy.Edfa.{t}' for t in (
     'nf_fixed_gain', 'nf_advanced_at_gmax', 'dual_stage_friis', 'flat_profile_exact', 'single_channel_profile',
     'gain_profile_flat', 'nf_no_pad', 'call_spec',
     'out_of_band_dropped', 'in_band_kept', 'demux_sublist', 'call_none_iff_no_channel_in_band',
-    'gain_profile_normalised_partial')]
+    'gain_profile_normalised_partial', 'callSeq_unsaturated', 'callSeq_persists', 'nf_stage_at_gmax_gmin',
+    'nf_openroadm', 'nf_openroadm_preamp', 'multiCall_none_iff', 'multiCall_per_band')]
 PARTIAL = ['gain_profile_normalised_partial: under tilt or gain ripple the secant step of Edfa._gain_profile only '
            'approximates the target average gain; proved: the profile is g1st - voa + dgt*x for one scalar x (so its '
            'shape is exactly ripple + x\'*dgt) and the flat case is exact; the residual of the average gain is '
            'bounded by the monitor (0.02 dB), not by a theorem']
-RULE = ('cases from one PRNG: (a) 72% amplifier crossings: an amplifier of a shipped library or of a generated '
+RULE = ('cases from one PRNG: (a) 66% amplifier crossings (+6% Multiband_amplifier crossings of the shipped multiband '
+        'library with a spectrum over both bands): an amplifier of a shipped library or of a generated '
         'library (variable/fixed gain, advanced polynomial with ripple, OpenROADM ila/preamp/booster, dual stage, '
         'custom bands), gain -5..40 dB, tilt in {0,+-1,+-2,random}, in/out VOA, 1-3 consecutive calls with spectra of '
         '1-120 channels (one or two combs, mixed slot/baud, channels outside or straddling the amplifier band, prior '
@@ -44,7 +46,8 @@ MODEL_SCOPE = ('modelled: Edfa.__call__/propagate/interpol_params (band filter, 
                'type_defs incl. dual_stage, noise_profile, _gain_profile (flat and tilted/ripple branches, polyfit as '
                'closed-form least squares), numpy linspace/interp/polyval, pout_db, output powers; '
                'estimate_nf_model; Amp.from_json key requirements. Not modelled: PMD/PDL accumulation (C05), ratio '
-               'bookkeeping of add_ase (C01), Multiband_amplifier muxing (C07)')
+               'bookkeeping of add_ase (C01). Multiband_amplifier.__call__ is modelled as per-band Edfa calls whose '
+               'outputs are merged by frequency')
 TRUSTED = ['numpy.polyfit (SVD least squares) is compared against the closed-form least-squares slope within class F']
 
 H = 6.62607015e-34
@@ -57,8 +60,10 @@ TILT_RESIDUAL_DB = 0.02
 
 def gen(rng, tier, widen=False):
     k = rng.random()
-    if k < 0.72:
+    if k < 0.66:
         return gen_call(rng, tier, widen)
+    if k < 0.72:
+        return gen_multi(rng, tier, widen)
     if k < 0.84:
         return gen_nfshape(rng)
     if k < 0.94:
@@ -186,6 +191,31 @@ def gen_call(rng, tier, widen):
     return {'kind': 'call', 'lib': lib, 'amp': amp, 'oper': oper, 'calls': calls}
 
 
+def gen_multi(rng, tier, widen):
+    """a Multiband_amplifier of the shipped multiband library, one spectrum spanning both bands"""
+    eq = nets.eqpt('eqpt_config_multiband.json')
+    mnames = [n for n, a in eq['Edfa'].items() if a.type_def == 'multi_band']
+    m = rng.choice(mnames)
+    opers, chans = [], []
+    members = sorted(eq['Edfa'][m].multi_band, key=lambda t: eq['Edfa'][t].f_min)
+    for t in members:
+        a = eq['Edfa'][t]
+        oper = {'gain_target': round(rng.uniform(a.gain_min - 4, a.gain_flatmax + 3), 2),
+                'tilt_target': rng.choice([0, 0, 1, -1, round(rng.uniform(-2, 2), 2)]),
+                'out_voa': rng.choice([0, 1, 2.5])}
+        opers.append({'type_variety': t, 'operational': oper})
+        if rng.random() < 0.85:
+            chans += gen_powers(rng, gen_spectrum(rng, int(a.f_min), int(a.f_max), tier), oper, a.p_max, widen)
+    # drop overlaps between the two combs (a comb may run past its band)
+    chans.sort(key=lambda c: c[0])
+    clean = []
+    for c in chans:
+        if not clean or clean[-1][0] + clean[-1][1] // 2 <= c[0] - c[1] // 2:
+            clean.append(c)
+    return {'kind': 'multi', 'lib': {'shipped': 'eqpt_config_multiband.json'}, 'amp': m, 'amplifiers': opers,
+            'chans': clean, 'noise': rng.choice([0, 0.05])}
+
+
 def gen_nfshape(rng):
     if rng.random() < 0.3:
         name = rng.choice(amplib.SHIPPED[:2])
@@ -273,7 +303,7 @@ def run(case, drv):
 
 
 def _run(case, drv):
-    return {'call': run_call, 'nfshape': run_nfshape, 'estimate': run_estimate, 'fromjson': run_fromjson}[
+    return {'call': run_call, 'multi': run_multi, 'nfshape': run_nfshape, 'estimate': run_estimate, 'fromjson': run_fromjson}[
         case['kind']](case, drv)
 
 
@@ -448,6 +478,79 @@ def run_call(case, drv):
                           'later_calls': int(ci > 0), 'with_prior_noise': int(bool(call.get('noise')))})
     res.nontrivial = kept_any and (saturated or any(len(c['chans']) >= 2 for c in calls))
     res.stats.update({'call_cases': 1, 'lib_shipped': int('shipped' in case['lib'])})
+    return res
+
+
+def run_multi(case, drv):
+    from gnpy.tools.json_io import network_from_json
+    res = Result()
+    if not case['chans']:
+        return res
+    eq = load_lib(case['lib'])
+    el = {'uid': 'amp', 'type': 'Multiband_amplifier', 'type_variety': case['amp'],
+          'amplifiers': copy.deepcopy(case['amplifiers']), 'metadata': nets.loc()}
+    topo = {'elements': [nets.trx('A'), el, nets.trx('B')], 'connections': [nets.cx('A', 'amp'), nets.cx('amp', 'B')]}
+    node = nets.by_uid(network_from_json(topo, eq))['amp']
+    si = make_si({'chans': case['chans'], 'noise': case['noise']})
+    ch = case['chans']
+    pin_all = si.pch.copy()
+    sig_in = (si._signal_ratio * si.pch).copy()
+    amps = list(node.amplifiers.values())
+    try:
+        out = node(si)
+        impl_err = None
+    except ValueError as e:
+        out, impl_err = None, err_kind(e)
+    ans = drv.ask('c04.multi', amps=[amplib.amp_json(a.params) for a in amps],
+                  opers=[{'gain': f2b(a.operational.gain_target), 'tilt': f2b(a.operational.tilt_target),
+                          'in_voa': f2b(a.operational.in_voa), 'out_voa': f2b(a.operational.out_voa)} for a in amps],
+                  chans=[[c[0], c[1], f2b(c[2]), f2b(pw)] for c, pw in zip(ch, pin_all)])
+    res.cmp_exact('Multiband_amplifier.rejects', impl_err, ans.get('error'))
+    bands = [(int(a.params.f_min), int(a.params.f_max)) for a in amps]
+    keep = [i for i, c in enumerate(ch) if any(2 * c[0] - c[1] >= 2 * lo and 2 * c[0] + c[1] <= 2 * hi for lo, hi in bands)]
+    if out is None:
+        if keep:
+            res.fail(f'band filter: multiband amplifier rejected a spectrum with {len(keep)} channels inside its bands')
+        res.stats['multi_rejected'] += 1
+        return res
+    got_f = [int(round(float(f))) for f in out.frequency]
+    if got_f != [ch[i][0] for i in keep]:
+        res.fail(f'band filter: multiband amplifier kept {len(got_f)} channels, {len(keep)} lie inside one of its bands')
+        return res
+    if 'outs' in ans:
+        model = {}
+        for o in ans['outs']:
+            if o is not None:
+                for f, pw in zip(o['kept'], o['pch']):
+                    model[f] = b2f(pw)
+        res.cmp_exact('Multiband_amplifier.kept_frequencies', got_f, sorted(model))
+        if got_f == sorted(model):
+            res.cmp_floats('Multiband_amplifier.out.pch', out.pch, [model[f] for f in got_f], rel=2e-9, abs_=1e-40)
+        for a, o in zip(amps, ans['outs']):
+            if o is not None:
+                res.cmp_float('Multiband_amplifier.amp.effective_gain', a.effective_gain, b2f(o['eff']), abs_=1e-9)
+    # monitor: each band's amplifier clamps on the power of its own band
+    sig_out = out._signal_ratio * out.pch
+    for a in amps:
+        lo, hi = int(a.params.f_min), int(a.params.f_max)
+        idx = [i for i in keep if 2 * ch[i][0] - ch[i][1] >= 2 * lo and 2 * ch[i][0] + ch[i][1] <= 2 * hi]
+        if not idx:
+            continue
+        ptot = math.fsum(float(pin_all[i]) for i in idx)
+        need = min(float(a.operational.gain_target), a.params.p_max - 10 * math.log10(ptot * 1e3))
+        if abs(float(a.effective_gain) - need) > 1e-9:
+            res.fail(f'effective gain: band amplifier {a.params.type_variety} applies {a.effective_gain}, '
+                     f'min(set gain, p_max - power of its band) = {need}')
+        flat = float(a.operational.tilt_target) == 0.0
+        for i in idx:
+            j = keep.index(i)
+            g = 10 * math.log10(float(sig_out[j]) / float(sig_in[i])) + float(a.operational.out_voa)
+            if (flat or len(idx) == 1) and abs(g - float(a.effective_gain)) > 1e-7:
+                res.fail(f'flat gain: channel at {ch[i][0]} Hz gained {g} dB in band amplifier {a.params.type_variety} '
+                         f'whose effective gain is {a.effective_gain}')
+                break
+    res.nontrivial = len(keep) >= 2
+    res.stats.update({'multi_cases': 1, 'multi_channels_kept': len(keep), 'multi_channels_dropped': len(ch) - len(keep)})
     return res
 
 
